@@ -88,6 +88,8 @@ package ch
 //@ loop 0 (list)
 //@   modifies all(c.reader)
 //@   invariant len(list) >= 0
+//@ loop 1 (rangeindex)
+//@   invariant true
 
 //@ -- the addendum may only be written when the NEGOTIATED revision has it
 //@ contract (c *Client) encodeAddendum() props(C13)
